@@ -155,4 +155,104 @@ def metadata_doc (leading : Str) (trailing : Str) (detached : List Str) : Str :=
   else
   (([] : Str))))
 
+-- gapic/schema/metadata.py — Address.__str__
+def address_str (self_module : Str) (self_parent : List Str) (self_name : Str) (module_alias : Str) (is_proto_plus_type : Bool) : Str :=
+  if (truthy self_module) then
+  (let module_name : Str := self_module
+  if (truthy module_alias) then
+  (let module_name : Str := module_alias
+  if (!is_proto_plus_type) then
+  (let module_name : Str := (self_module ++ (['_', 'p', 'b', '2'] : Str))
+  (join (['.'] : Str) ((([module_name] : List Str) ++ self_parent) ++ ([self_name] : List Str))))
+  else
+  ((join (['.'] : Str) ((([module_name] : List Str) ++ self_parent) ++ ([self_name] : List Str)))))
+  else
+  (if (!is_proto_plus_type) then
+  (let module_name : Str := (self_module ++ (['_', 'p', 'b', '2'] : Str))
+  (join (['.'] : Str) ((([module_name] : List Str) ++ self_parent) ++ ([self_name] : List Str))))
+  else
+  ((join (['.'] : Str) ((([module_name] : List Str) ++ self_parent) ++ ([self_name] : List Str))))))
+  else
+  ((join (['.'] : Str) (self_parent ++ ([self_name] : List Str))))
+
+-- gapic/schema/metadata.py — Address.module_alias
+def address_module_alias (self_module : Str) (self_collisions : List Str) (self_package : List Str) (api_version : Str) : Str :=
+  if ((strIn self_module self_collisions) || (strIn self_module (GapicModel.Pinned.reservedNames.map String.toList))) then
+  ((join (['_'] : Str) ([(join ([] : Str) ((self_package).flatMap fun i_ => (((((split i_ ['_'])).filter fun partial_name_ => (i_ != api_version))).map fun partial_name_ => (idxStr partial_name_ (0 : Int))))), self_module] : List Str)))
+  else
+  (([] : Str))
+/-- true iff no index expression evaluated by `address_module_alias` on these arguments is out of range (Python raises IndexError otherwise) -/
+def address_module_alias_ok (self_module : Str) (self_collisions : List Str) (self_package : List Str) (api_version : Str) : Bool :=
+  (if ((strIn self_module self_collisions) || (strIn self_module (GapicModel.Pinned.reservedNames.map String.toList))) then ((self_package).all fun i_ => (((split i_ ['_'])).all fun partial_name_ => (!((i_ != api_version)) || (inRange (len partial_name_) (0 : Int))))) else true)
+
+-- gapic/schema/metadata.py — Address.proto
+def address_proto (self_package : List Str) (self_parent : List Str) (self_name : Str) : Str :=
+  (join (['.'] : Str) ((self_package ++ self_parent) ++ ([self_name] : List Str)))
+
+-- gapic/schema/metadata.py — Address.proto_package
+def address_proto_package (self_package : List Str) : Str :=
+  (join (['.'] : Str) self_package)
+
+-- gapic/schema/metadata.py — Address.convert_to_versioned_package
+def address_versioned_package (self_package : List Str) : List Str :=
+  let version_regex : Str := (['^', 'v', (Char.ofNat 92), 'd', '[', '^', '/', ']', '*', '$'] : Str)
+  let regex_match : Option Str := (reMatchText (.seq .bol (.seq (.chr 'v') (.seq (.cls false [.digit]) (.seq (.star (.cls true [.ch '/']) true) .eol)))) (idxList self_package (-1 : Int)))
+  if ((regex_match).isSome && (decide ((len self_package) > (1 : Int)))) then
+  (let versioned_module : Str := ((idxList self_package (-2 : Int)) ++ (['_'] : Str) ++ (matchText regex_match))
+  ((slice self_package none (some (-2 : Int))) ++ ([versioned_module] : List Str)))
+  else
+  (self_package)
+/-- true iff no index expression evaluated by `address_versioned_package` on these arguments is out of range (Python raises IndexError otherwise) -/
+def address_versioned_package_ok (self_package : List Str) : Bool :=
+  (let version_regex : Str := (['^', 'v', (Char.ofNat 92), 'd', '[', '^', '/', ']', '*', '$'] : Str); ((inRange (len self_package) (-1 : Int)) && (let regex_match : Option Str := (reMatchText (.seq .bol (.seq (.chr 'v') (.seq (.cls false [.digit]) (.seq (.star (.cls true [.ch '/']) true) .eol)))) (idxList self_package (-1 : Int))); (if ((regex_match).isSome && (decide ((len self_package) > (1 : Int)))) then (inRange (len self_package) (-2 : Int)) else true))))
+
+-- gapic/schema/metadata.py — Address.subpackage
+def address_subpackage (self_package : List Str) (api_proto_package : Str) : List Str :=
+  (slice self_package (some (len (split api_proto_package ['.']))) none)
+
+-- gapic/schema/metadata.py — Address.python_import
+def address_python_import (self_package : List Str) (self_module : Str) (api_module_namespace : List Str) (api_versioned_module_name : Str) (api_proto_package : Str) (api_naming_truthy : Bool) (proto_package : Str) (subpackage : List Str) (is_proto_plus_type : Bool) (versioned_package : List Str) (module_alias : Str) : PyImport :=
+  if (!api_naming_truthy) then
+  ((PyImport.mk self_package self_module module_alias))
+  else
+  (if (startswith proto_package api_proto_package) then
+  ((PyImport.mk (((api_module_namespace ++ ([api_versioned_module_name] : List Str)) ++ subpackage) ++ ([(['t', 'y', 'p', 'e', 's'] : Str)] : List Str)) self_module module_alias))
+  else
+  (if is_proto_plus_type then
+  ((PyImport.mk (versioned_package ++ ([(['t', 'y', 'p', 'e', 's'] : Str)] : List Str)) self_module module_alias))
+  else
+  ((PyImport.mk self_package (self_module ++ (['_', 'p', 'b', '2'] : Str)) ([] : Str)))))
+
+-- gapic/schema/metadata.py — Address.rel
+def address_rel (self_package : List Str) (self_module : Str) (self_parent : List Str) (self_name : Str) (other_package : List Str) (other_module : Str) (other_parent : List Str) (other_name : Str) (self_str : Str) : Str :=
+  if ((self_package == other_package) && (self_module == other_module)) then
+  (if ((truthy self_parent) && (truthy other_parent) && ((idxList self_parent (0 : Int)) == (idxList other_parent (0 : Int)))) then
+  ((([(Char.ofNat 39)] : Str) ++ (join (['.'] : Str) self_parent) ++ (['.'] : Str) ++ self_name ++ ([(Char.ofNat 39)] : Str)))
+  else
+  (if ((truthy self_parent) && (!(truthy other_parent)) && ((idxList self_parent (0 : Int)) == other_name)) then
+  ((join (['.'] : Str) ((slice self_parent (some (1 : Int)) none) ++ ([self_name] : List Str))))
+  else
+  ((([(Char.ofNat 39)] : Str) ++ (join (['.'] : Str) (self_parent ++ ([self_name] : List Str))) ++ ([(Char.ofNat 39)] : Str)))))
+  else
+  (self_str)
+/-- true iff no index expression evaluated by `address_rel` on these arguments is out of range (Python raises IndexError otherwise) -/
+def address_rel_ok (self_package : List Str) (self_module : Str) (self_parent : List Str) (self_name : Str) (other_package : List Str) (other_module : Str) (other_parent : List Str) (other_name : Str) (self_str : Str) : Bool :=
+  (if ((self_package == other_package) && (self_module == other_module)) then ((!(truthy self_parent) || (!(truthy other_parent) || ((inRange (len self_parent) (0 : Int)) && (inRange (len other_parent) (0 : Int))))) && (if ((truthy self_parent) && (truthy other_parent) && ((idxList self_parent (0 : Int)) == (idxList other_parent (0 : Int)))) then true else (!(truthy self_parent) || (!(!(truthy other_parent)) || (inRange (len self_parent) (0 : Int)))))) else true)
+
+-- gapic/schema/metadata.py — Address.sphinx
+def address_sphinx (self_package : List Str) (self_module : Str) (self_parent : List Str) (self_name : Str) (api_module_namespace : List Str) (api_versioned_module_name : Str) (api_proto_package : Str) (api_naming_truthy : Bool) (proto_package : Str) (subpackage : List Str) (is_proto_plus_type : Bool) (versioned_package : List Str) (self_str : Str) : Str :=
+  if (!api_naming_truthy) then
+  (if (truthy self_package) then
+  ((join (['.'] : Str) (self_package ++ ([self_module, self_name] : List Str))))
+  else
+  (self_str))
+  else
+  (if (startswith proto_package api_proto_package) then
+  ((join (['.'] : Str) (((((api_module_namespace ++ ([api_versioned_module_name] : List Str)) ++ subpackage) ++ ([(['t', 'y', 'p', 'e', 's'] : Str)] : List Str)) ++ self_parent) ++ ([self_name] : List Str))))
+  else
+  (if is_proto_plus_type then
+  ((join (['.'] : Str) (((versioned_package ++ ([(['t', 'y', 'p', 'e', 's'] : Str)] : List Str)) ++ self_parent) ++ ([self_name] : List Str))))
+  else
+  ((proto_package ++ (['.'] : Str) ++ self_module ++ (['_', 'p', 'b', '2', '.'] : Str) ++ self_name))))
+
 end GapicModel.Pinned.Funcs
